@@ -196,14 +196,16 @@ Section IntTable.
 
   Lemma emb_wf (t : table Z value) : tinv Z value hash t -> entries_wf t -> v_wf (VMap KTable (emb t)) = true.
   Proof.
-    intros [[_ [_ U]] _] W. cbn [v_wf]. apply andb_true_iff. split.
+    intros [[_ [_ U]] _] W. cbn [v_wf]. apply andb_true_iff. split; [apply andb_true_iff; split|].
     - apply forallb_forall. intros [k v] I. unfold emb in I. apply in_map_iff in I.
       destruct I as [[k0 v0] [E I]]. simpl in E. injection E as <- <-.
       destruct (W _ _ I) as [W1 W2]. simpl. change (v_wf (VInt k0) && v_wf v0 = true). rewrite W1, W2. reflexivity.
+    - apply (kcl_same_class (kclass (VInt 0))). unfold kcl, emb. apply Forall_forall. intros kv I.
+      apply in_map_iff in I. destruct I as [[k0 v0] [<- _]]. reflexivity.
     - apply nodup_keys_distinct.
-      + unfold keysok, emb. apply Forall_forall. intros kv I. apply in_map_iff in I.
-        destruct I as [[k0 v0] [<- _]]. reflexivity.
-      + unfold keys, emb. rewrite map_map. simpl.
+      + unfold kwf, emb. apply Forall_forall. intros kv I. apply in_map_iff in I.
+        destruct I as [[k0 v0] [<- I]]. simpl. split; [reflexivity|]. apply (W _ _ I).
+      + unfold nkeys, emb. rewrite map_map. simpl.
         pose proof (entries_nodup Z value _ U) as ND. unfold t_iter.
         rewrite <- (map_map fst VInt). apply FinFun.Injective_map_NoDup; [|exact ND].
         intros x y E. injection E. auto.
